@@ -172,6 +172,7 @@ func destIs(path string, names ...string) bool {
 
 // narrow classifiers of the recorded defects (known_findings.d/C19.json); "" = not a recorded defect
 func classifyDecode(path, lit, got, want string) string {
+	lit = strings.Trim(lit, " \t\r\n") // white space around the literal is part of the document, not of the number
 	valid := validNumber(lit)
 	if !valid {
 		return ""
